@@ -21,23 +21,53 @@ def _is_vmapped_qr(t: T) -> Optional[T]:
     return None
 
 
-def _norm_of(ev: Evaluator, t: T) -> Optional[T]:
-    """vmap(lambda x: prod(diag(x)))(R) -> R ; None if not of that form."""
+def _norm_of(ev: Evaluator, t: T, fr=None) -> Optional[T]:
+    """The R whose diagonal product (per walker) t is; None if t is not of one of the forms
+         vmap(lambda x: prod(diag(x)))(R)        (lambda, local def or module-level helper)
+         prod(vmap(diag)(R), axis=1)             prod(diagonal(R, axis1=1, axis2=2), axis=1)"""
+    t = strip_wrappers(t)
     vm = match_vmap(t) if t.op == "call" else None
-    if vm is None:
-        return None
-    f, in_axes, args = vm
-    if f.op != "closure" or len(args) != 1:
-        return None
-    x = sym("§r")
-    body = strip_wrappers(ev.open_closure(f, [x]))
-    pr = m_arrcall(body, "prod")
-    if pr is None:
-        return None
-    dg = m_arrcall(strip_wrappers(pr[0]), "diag", "diagonal")
-    if dg is None or strip_wrappers(dg[0]) is not x:
-        return None
-    return args[0]
+    if vm is not None:
+        f, in_axes, args = vm
+        if len(args) != 1:
+            return None
+        x = sym("§r")
+        body = None
+        if f.op == "closure":
+            body = ev.open_closure(f, [x])
+        elif f.op in ("fn", "attr") and fr is not None:
+            cands = ev.resolve_callees(f, fr)
+            if cands and len(cands) == 1:
+                body = ev.inline_function(fr, f, cands[0][0], cands[0][1], [x], [], 0)
+        if body is None:
+            return None
+        body = strip_wrappers(body)
+        pr = m_arrcall(body, "prod")
+        if pr is None:
+            return None
+        dg = m_arrcall(strip_wrappers(pr[0]), "diag", "diagonal")
+        if dg is None or strip_wrappers(dg[0]) is not x:
+            return None
+        return args[0]
+    pr = m_arrcall(t, "prod") if t.op == "call" else None
+    if pr is not None:
+        _, pos, kws = call_parts(t)
+        ax = kws.get("axis", pos[1] if len(pos) > 1 else None)
+        if ax is None or not (is_const(ax, 1) or is_const(ax, -1)):
+            return None
+        inner = strip_wrappers(pos[0])
+        vm2 = match_vmap(inner) if inner.op == "call" else None
+        if vm2 is not None and vm2[0].op == "name" and vm2[0].args[0].split(".")[-1] in ("diag", "diagonal") and \
+                len(vm2[2]) == 1:
+            return vm2[2][0]
+        dg = m_arrcall(inner, "diagonal") if inner.op == "call" else None
+        if dg is not None:
+            _, dpos, dk = call_parts(inner)
+            a1, a2 = dk.get("axis1"), dk.get("axis2")
+            if a1 is not None and a2 is not None and {a1.args[0] if a1.op == "const" else None,
+                                                      a2.args[0] if a2.op == "const" else None} in ({1, 2}, {-1, -2}):
+                return dpos[0]
+    return None
 
 
 def pair3(ctx, fi: FuncInfo) -> int:
@@ -66,7 +96,7 @@ def pair3(ctx, fi: FuncInfo) -> int:
             if inp is not src_w:
                 why = f"Q{tag} is factorised from {show(inp, maxdepth=2)}, not from the input block"
             else:
-                r_of = _norm_of(ev, nf)
+                r_of = _norm_of(ev, nf, fr)
                 if r_of is None:
                     why = f"norm factor{tag} is not vmap(prod(diag(R)))"
                 elif not (r_of.op == "getitem" and is_const(r_of.args[1], 1) and r_of.args[0] is fact):
